@@ -56,15 +56,15 @@ type Exec struct {
 	cfg     *RunCfg
 
 	// per path
-	pc      []*Term
-	pcSet   map[*Term]bool
-	prefix  []int
-	trace   []int
-	pending [][]int
-	inputs  []*Term
-	inSeen  map[string]bool
-	steps   int
-	harness string
+	pc        []*Term
+	pcSet     map[*Term]bool
+	prefix    []int
+	trace     []int
+	pending   [][]int
+	inputs    []*Term
+	inSeen    map[string]bool
+	steps     int
+	harness   string
 	nondetSeq int
 
 	// results
